@@ -167,6 +167,46 @@ def _entries():
     add('rule times own random plus foreign random',
         lambda a, b: a['m'].st(a['y'][0] + a['x'][0] * a['z'][0] + b['z'][0] <= 1),
         fronts1=['ro'])
+    # every argument position of the multi-argument functions
+    def fx(d, i=0):
+        return d['x'][i]
+    add('rsocone foreign y', lambda a, b: a['m'].st(a['rso'].rsocone(a['x'], fx(b), fx(a, 1))))
+    add('rsocone foreign z', lambda a, b: a['m'].st(a['rso'].rsocone(a['x'], fx(a), fx(b, 1))))
+    add('rsocone foreign x', lambda a, b: a['m'].st(a['rso'].rsocone(b['x'], fx(a), fx(a, 1))))
+    add('expcone foreign y', lambda a, b: a['m'].st(a['rso'].expcone(fx(b), fx(a), 1.0)))
+    add('expcone foreign z', lambda a, b: a['m'].st(a['rso'].expcone(fx(a), fx(a, 1), fx(b))))
+    add('expcone foreign x and z',
+        lambda a, b: a['m'].st(a['rso'].expcone(fx(a), fx(b, 1), fx(b))))
+    add('expcone foreign affine x',
+        lambda a, b: a['m'].st(a['rso'].expcone(fx(a), 2 * fx(b) + 1, 1.0)))
+    add('kldiv foreign p', lambda a, b: a['m'].st(a['rso'].kldiv(b['x'], a['x'], 0.1)))
+    add('kldiv foreign affine q',
+        lambda a, b: a['m'].st(a['rso'].kldiv(a['x'], 1.0 * b['x'], 0.1)))
+    # (whole variables: the dro front end refuses sliced scales of perspective atoms anyway)
+    add('pexp foreign scale', lambda a, b: a['m'].st(a['rso'].pexp(a['x'], b['x']) <= 1))
+    add('pexp foreign affine scale',
+        lambda a, b: a['m'].st(a['rso'].pexp(a['x'], 2 * b['x']) <= 1))
+    add('pexp foreign argument', lambda a, b: a['m'].st(a['rso'].pexp(b['x'], a['x']) <= 1))
+    add('plog foreign scale', lambda a, b: a['m'].st(a['rso'].plog(a['x'], b['x']) >= -1))
+    add('plog foreign argument', lambda a, b: a['m'].st(a['rso'].plog(b['x'], a['x']) >= -1))
+    add('pexp foreign scalar scale',
+        lambda a, b: a['m'].st(a['rso'].pexp(fx(a), fx(b)) <= fx(a, 1)))
+    add('maxof foreign first', lambda a, b: a['m'].st(a['rso'].maxof(fx(b), fx(a)) <= 1))
+    add('minof foreign', lambda a, b: a['m'].st(a['rso'].minof(fx(a), fx(b)) >= -1))
+    add('sumsqr foreign among several',
+        lambda a, b: a['m'].st(a['rso'].sumsqr(fx(a), fx(b)) <= 1))
+    add('fnorm / norm of concat with foreign',
+        lambda a, b: a['m'].st(a['rso'].norm(a['rso'].concat([a['x'], b['x']])) <= 1))
+    add('convex of foreign compared with own', lambda a, b: a['m'].st(a['rso'].norm(b['x']) <= fx(a)))
+    add('exp of foreign compared with own', lambda a, b: a['m'].st(a['rso'].exp(fx(b)) <= fx(a)))
+    add('own convex compared with foreign', lambda a, b: a['m'].st(a['rso'].norm(a['x']) <= fx(b)))
+    add('own exp compared with foreign', lambda a, b: a['m'].st(a['rso'].exp(fx(a)) <= fx(b)))
+    add('own square plus foreign', lambda a, b: a['m'].st(a['rso'].square(fx(a)) + fx(b) <= 1))
+    add('foreign objective in min', lambda a, b: a['m'].min(b['x'].sum()))
+    add('E of foreign expression', lambda a, b: a['m'].st(a['rso'].E(b['x'].sum()) <= 1),
+        fronts1=['dro'])
+    add('own times foreign random inside E',
+        lambda a, b: a['m'].st(a['rso'].E((a['x'][:2] * b['z']).sum()) <= 1), fronts1=['dro'])
     add('objective redefinition (min, min)', lambda a, b: a['m'].min(a['x'].sum()))
     add('objective redefinition (min, max)', lambda a, b: a['m'].max(a['x'].sum()))
     add('objective redefinition (minmax/minsup again)',
@@ -289,11 +329,18 @@ def run_case(spec, ctx):
         except Exception as ex:
             raised = '%s: %s' % (type(ex).__name__, str(ex)[:70])
         feats['stage'] = stage
-        if raised is not None and stage != 'misuse':
-            # refused only while compiling: make sure that is not an accident of the two models
+        deliberate = raised is not None and stage == 'misuse' and any(
+            k in raised for k in ('ismatch', 'not match', 'not for this', 'not defined for',
+                                  'Unknown model', 'Unsupported constraints', 'Redefinition',
+                                  'Can not define', 'must be specified before'))
+        if raised is not None and not deliberate:
+            # refused only while compiling, or by an error that is not a model check (dimension
+            # errors and the like): make sure the refusal is not an accident of the two models
             # having different sizes
-            for pad, pad1, zpad in [(p2, p1, zp) for p2 in range(0, 9) for p1 in range(0, 9)
-                                    for zp in (0, 1)]:
+            for pad, pad1, zpad in [(p2, p1, zp)
+                                    for p1, p2 in [(k, 0) for k in range(0, 9)] +
+                                    [(0, k) for k in range(1, 9)] + [(2, 2), (4, 3), (3, 4)]
+                                    for zp in (0, 1, 2)]:
                 if True:
                     ctx.count('size_sweep_models')
                     a2 = _mk(e['f1'], pad=pad1)
